@@ -94,6 +94,7 @@ type or the key has been checked before.  The baseline below is the reviewed sta
 tree; a new unguarded site breaks `EPV.C03.unguarded_sites_baseline`. -/
 def unguardedBaseline : List (String × String × String) := [
   ("xpath1/_xpath1_operators.py", "evaluate__div_operator", "float()"),          -- operands are numeric (ArithmeticProxy)
+  ("xpath2/_xpath2_constructors.py", "cast__numeric_types", "Decimal()"),        -- Decimal(0): a constant argument cannot raise (b5fb608)
   ("xpath2/_xpath2_functions.py", "evaluate__avg", "Decimal()"),                 -- Decimal(len(values)) / Decimal(int)
   ("xpath2/_xpath2_functions.py", "evaluate__avg", "int()"),
   ("xpath2/_xpath2_functions.py", "evaluate__codepoints_to_string", "int()"),    -- F03g: int(UntypedAtomic('x')) -> ValueError
